@@ -489,7 +489,26 @@ class Arena:
             if start + done >= len(lines):
                 break
             culprit = jobs[start + done]
-            incidents.append({"job": culprit, "kind": "hang" if hang else "died", "rc": p.returncode})
+            retried = None
+            if hang:
+                # a wall-clock expiry is no verdict: the job is repeated alone with ten times the budget
+                p2 = subprocess.Popen([str(self.bin), str(budget_ms * 10)], stdin=subprocess.PIPE, stdout=subprocess.PIPE,
+                                      stderr=subprocess.DEVNULL, preexec_fn=limits, env=penv)
+                try:
+                    out2, _ = p2.communicate(lines[start + done].encode(), timeout=budget_ms / 100 + 60)
+                except subprocess.TimeoutExpired:
+                    p2.kill()
+                    out2, _ = p2.communicate()
+                for ln in out2.decode(errors="replace").splitlines():
+                    if ln.startswith("{") and "hang_seq" not in ln:
+                        try:
+                            retried = json.loads(ln)
+                        except json.JSONDecodeError:
+                            pass
+            if retried is not None and "id" in retried:
+                results[retried["id"]] = retried
+            else:
+                incidents.append({"job": culprit, "kind": "hang" if hang else "died", "rc": p.returncode})
             start = start + done + 1
         return results, incidents
 
